@@ -6,18 +6,40 @@ emulator.  Streams:
       token-operation sequence x every applicable fault kind (error return at any op; object missing / duplicated at
       a search; attribute unreadable at a read; signature corrupted / truncated / made by another key / over another
       hash at a C_Sign), with and without a previous SKR;
+  (a') the same enumeration over REDUNDANT token set-ups, where a KSK label exists in more than one place: two modules
+      (primary + backup HSM) or two slots of one module holding the same key material; a later module / slot holding
+      OTHER key material under the same label; the key only in the later module (every search first visits the
+      earlier one); thorough: two signers spread crosswise over two modules;
   (b) GATES before signing: single-rule violations of C05..C09 in the KSR / chain, bad schema name, missing KSR file,
-      unknown HSM name, declined confirmation (a dictionary of strings), configuration errors;
-  (c) exit statuses through main().
+      unknown HSM name, declined confirmation (a dictionary of strings), configuration errors; every chain gate with
+      the previous SKR named in the configuration, on the command line, and both (another file in the configuration);
+  (b') gates that only the RESPONSE side sees: identifier collisions in the request (a ZSK whose keyIdentifier is the
+      label of a signing / of a merely published KSK, placed in the first, a middle and the last bundle; one identifier
+      for two different ZSKs in different bundles / in one bundle) and publish- / retire-safety violations as the ONLY
+      violation (a signer that was not pre-published, a previous signer dropped, the publish point outside the previous
+      last bundle) — each with the previous SKR named in the configuration / on the command line / both, and in the
+      "both" form also the other way round (the command line names an SKR under which nothing is violated);
+  (b'') what lies at the output path before the run: nothing, a short file, a 300 kB file, an earlier SKR, an earlier SKR
+      longer than the new one — under a successful, a declined, a faulted and a refused-after-signing run;
+      a schema whose slots are LISTED out of order in the configuration (the slot number decides);
+  (c) exit statuses through main(), file names from the configuration and from the command line.
 Oracle (the property): the output path changes ONLY on a successful run, and then to exactly the SKR of the
-fault-free ceremony (RSA signatures are deterministic); otherwise it keeps its previous bytes, the result is
-False/exception and the exit status non-zero; when the failure precedes the signing stage no C_Sign is issued.
+fault-free ceremony, whole file (RSA signatures are deterministic); otherwise it keeps its previous bytes (or stays
+absent), the result is False/exception and the exit status non-zero; when the failure precedes the signing stage no
+C_Sign is issued.  An injected error return of a token operation (object search, attribute read, C_Sign, module
+set-up) and every bad signature must end the run unsuccessfully wherever the key may also be found.  Every SKR a
+successful run leaves behind must (1) be accepted by the repository's own `load_skr` (full validate_response) and
+(2) by the independent judge `ceremony_run.skr_problems` (ElementTree + dnspython over exactly the published keys of
+each bundle, schema roles by slot number, request echoed).
 The Lean model (`ksrsigner` op) replays each run's token log and must predict result, exit status, events
-(display / prompt / the single write and its content) and the complete token-operation sequence.
+(display / prompt / the single write and its content — compared with the whole file as ElementTree reads it) and the
+complete token-operation sequence.  Where two keys share an identifier in one key set the model declines
+(`KeysToSign.get` depends on set iteration order): those runs are judged by the oracle alone and counted as unsupported.
 """
 
 from __future__ import annotations
 
+import copy
 from datetime import timedelta
 from pathlib import Path
 from typing import Any
@@ -34,15 +56,22 @@ ASSUMPTIONS = [
     "the write is one effect: open(...,'wb') followed by write() is not atomic in the OS; a crash between the two is not modelled here (its consequence, a truncated file, is C11's subject)",
     "parsing of KSR / previous SKR is outside the ceremony model: parse outcomes are inputs (C12/C13)",
     "the token emulator stands in for a PKCS#11 device",
+    "an error return of C_OpenSession / C_Login on one slot is not counted among the faults that must end the run: the code documents that such a slot is skipped ('not an error if one or more slots succeeded') and the model follows it; with the KSK also present in another slot the ceremony then completes with the fault-free SKR (counted in stats as session-setup-error:…)",
+    "an object search that wrongly answers 'nothing here' (fault kind missing) cannot be told from a slot that does not hold the key: with a second copy elsewhere the search legitimately goes on; only the fault-free SKR may result",
 ]
-TRUSTED = ["harness/p11emu.py token emulator", "harness/ceremony_run.py entry-point driver"]
+TRUSTED = ["harness/p11emu.py token emulator", "harness/ceremony_run.py entry-point driver and independent SKR judge (ElementTree, dnspython)"]
 
 FAULTS_BY_OP = {
     "findObjects": ["error", "missing", "duplicate"],
     "getAttributeValue": ["error", "unreadable"],
     "sign": ["error", "corrupt", "truncate", "wrong_key", "wrong_hash"],
 }
+# fault kinds after which no SKR may appear wherever else the key might be found (see ASSUMPTIONS for the two exceptions)
+MUST_FAIL_KINDS = {"error", "corrupt", "truncate", "wrong_key", "wrong_hash"}
+SESSION_SETUP_OPS = {"openSession", "login"}
 CONFIRMATIONS = ["Yes", "Yes\n", "\nYes\n\n", "yes", "YES", "Yes ", " Yes", "Y", "", "\n", "Yes\r", "Yes\t", "No", "Yes Yes", "Yes\nNo", "yEs", "Yes.", "‘Yes’", "Ｙｅｓ"]
+REDUNDANT_QUICK = ["2mod-same-key", "2slot-same-key", "2mod-other-key-later", "2mod-key-in-later-only"]
+REDUNDANT_THOROUGH = REDUNDANT_QUICK + ["2slot-other-key-later", "2mod-2slot-same-key", "2mod-two-signers-crosswise"]
 
 
 def ceremony_scenario(r: Any, n: int, signers: int) -> S.Scenario:
@@ -65,10 +94,53 @@ def ceremony_scenario(r: Any, n: int, signers: int) -> S.Scenario:
     return sc
 
 
+def add_copy(sc: S.Scenario, module: str, slot: int, label: str, tk: K.TestKey) -> None:
+    """One more pair of objects under `label` (material `tk`) in another module / slot of the scenario's world."""
+    sc.token_edits.append(lambda w, module=module, slot=slot, label=label, tk=tk: w.modules[module].slot(slot).add_rsa(label, tk))
+
+
+def redundant_scenario(kind: str, n: int = 2) -> S.Scenario:
+    """Ceremonies in which a KSK label can be found in more than one place (see the module docstring, stream a')."""
+    sc = S.Scenario()
+    pool = K.rsa_keys(2048, 65537)
+    two_mod = kind.startswith("2mod")
+    slots0 = [{"id": 0}, {"id": 1}] if ("2slot" in kind) else [{"id": 0}]
+    sc.modules = [{"path": "emu0", "pin": "1234", "slots": [dict(s) for s in slots0]}]
+    if two_mod:
+        sc.modules.append({"path": "emu1", "pin": "1234", "slots": [dict(s) for s in slots0] if kind == "2mod-2slot-same-key" else [{"id": 0}]})
+    names = ["ka", "kb"] if "two-signers" in kind else ["ka"]
+    later = ("emu1", 0) if two_mod else ("emu0", 1)
+    for i, name in enumerate(names):
+        tk = pool[i]
+        home = ("emu0", 0)
+        if kind == "2mod-key-in-later-only" or (kind == "2mod-two-signers-crosswise" and i == 1):
+            home = later
+        k = {"label": "K" + name, "tk": tk, "alg": 8, "module": home[0], "slot": home[1], "priv_has_pub_attrs": True}
+        # the key is pinned by tag and DS digest, as in the example configuration: OTHER material under the label can never be used
+        k["entry"] = C.ksk_config_entry(k["label"], tk, 8, with_tag=True, with_ds=True, hash_using_hsm=bool(i) if "other-key" not in kind else True)
+        sc.ksks[name] = k
+        if kind in ("2mod-same-key", "2slot-same-key"):
+            add_copy(sc, later[0], later[1], k["label"], tk)
+        elif kind in ("2mod-other-key-later", "2slot-other-key-later"):
+            add_copy(sc, later[0], later[1], k["label"], pool[4])
+        elif kind == "2mod-2slot-same-key":
+            for m, s in (("emu0", 1), ("emu1", 0), ("emu1", 1)):
+                add_copy(sc, m, s, k["label"], tk)
+        elif kind == "2mod-two-signers-crosswise":
+            other = ("emu0", 0) if home == later else later
+            add_copy(sc, other[0], other[1], k["label"], tk)
+    for slot in range(1, n + 1):
+        sc.schema[slot] = {"publish": list(names), "sign": list(names), "revoke": []}
+    z = K.rsa_keys(1024, 65537)
+    sc.zsks = [("Z0", z[0], 8), ("Z1", z[1], 8)]
+    sc.layout = [[0, 1]] + [[1] for _ in range(n - 1)]
+    sc.zsk_ttl = sc.ksk_ttl = 172800
+    sc.meta = {"n": n, "signers": len(names), "redundant": kind}
+    return sc
+
+
 def successor(sc: S.Scenario, n: int) -> S.Scenario:
     """The honest next-quarter ceremony after `sc` (same keys; chains to sc's SKR)."""
-    import copy
-
     nx = copy.copy(sc)
     nx.schema = dict(sc.schema)
     nx.layout = [[1]] + [[1] for _ in range(n - 1)]
@@ -79,90 +151,178 @@ def successor(sc: S.Scenario, n: int) -> S.Scenario:
     return nx
 
 
-def observe(res: Result, runs: list[dict[str, Any]], o: dict[str, Any], case: dict[str, Any], baseline: bytes | None, *, expect_no_sign: bool = False, expect_success: bool | None = None) -> None:
-    res.count(case)
-    out = o["outcome"]
-    success = out == {"ok": True} or out == {"exit": 0} or out == {"ok": None}
-    o["case"] = case
-    runs.append(o)
-    key = case.get("stream", "") + ":" + str(case.get("kind", case.get("gate", "")))
-    if o["written"]:
-        if not success:
-            res.violation("output path was written although the run ended unsuccessfully", case, key="written-on-failure:" + key, outcome=out)
-        if baseline is not None and o["file_after"] != baseline:
-            res.violation("an SKR other than the fault-free one was written", case, key="wrong-skr:" + key, outcome=out)
-    else:
-        if success:
-            res.violation("run reported success but nothing was written to the output path", case, key="success-no-write:" + key, outcome=out)
-        if o["file_after"] != R.SENTINEL:
-            res.violation("an existing output file was not left unchanged by an unsuccessful run", case, key="clobbered:" + key, outcome=out)
-    if "exit" in o and ((o["exit"] == 0) != success or (not success and o["exit"] == 0)):
-        res.violation("exit status 0 on an unsuccessful run (or non-zero on success)", case, key="exit:" + key, outcome=out, exit=o["exit"])
-    if expect_no_sign and o["sign_ops"]:
-        res.violation("private-key operation although the failure precedes the signing stage", case, key="early-sign:" + key, outcome=out, sign_ops=o["sign_ops"])
-    if expect_success is True and not success:
-        res.violation("honest ceremony did not succeed", case, key="honest:" + key, outcome=out)
-    if expect_success is False and success:
-        res.violation("run succeeded although a gate must have refused it", case, key="gate:" + key, outcome=out)
-    res.bump("outcome:" + ("success" if success else str(next(iter(out.values())))))
+def two_ksk_scenario(n: int, schema_of: Any, *, layout: list[list[int]] | None = None, zsks: list[tuple[str, K.TestKey, int]] | None = None) -> S.Scenario:
+    """ka and kb on one token; the schema decides who is published / signs (collision and safety gates)."""
+    sc = S.Scenario()
+    sc.modules = [{"path": "emu0", "pin": "1234", "slots": [{"id": 0}]}]
+    pool = K.rsa_keys(2048, 65537)
+    for i, name in enumerate(["ka", "kb"]):
+        k = {"label": "K" + name, "tk": pool[i], "alg": 8, "module": "emu0", "slot": 0, "priv_has_pub_attrs": True}
+        k["entry"] = C.ksk_config_entry(k["label"], pool[i], 8, with_tag=True, with_ds=True, hash_using_hsm=bool(i))
+        sc.ksks[name] = k
+    for slot in range(1, n + 1):
+        sc.schema[slot] = schema_of(slot)
+    z = K.rsa_keys(1024, 65537)
+    sc.zsks = zsks or [("Z0", z[0], 8), ("Z1", z[1], 8)]
+    sc.layout = layout or ([[0, 1]] + [[1] for _ in range(n - 1)])
+    sc.zsk_ttl = sc.ksk_ttl = 172800
+    sc.meta = {"n": n, "signers": 2}
+    return sc
+
+
+class Judge:
+    """The property oracle for one run (see the module docstring); collects the runs for the model comparison."""
+
+    def __init__(self, res: Result, work: Path) -> None:
+        self.res = res
+        self.work = work
+        self.runs: list[dict[str, Any]] = []
+
+    def observe(
+        self,
+        o: dict[str, Any],
+        case: dict[str, Any],
+        baseline: bytes | None,
+        *,
+        sc: S.Scenario | None = None,
+        ksr_xml: str | None = None,
+        expect_no_sign: bool = False,
+        expect_success: bool | None = None,
+        model_may_decline: bool = False,
+        refusal: str = "run succeeded although a gate must have refused it",
+    ) -> bool:
+        res = self.res
+        res.count(case)
+        out = o["outcome"]
+        success = out == {"ok": True} or out == {"exit": 0} or out == {"ok": None}
+        o["case"] = case
+        o["model_may_decline"] = model_may_decline
+        self.runs.append(o)
+        key = case.get("stream", "") + ":" + str(case.get("kind", case.get("gate", "")))
+        pre = o.get("preexisting", R.SENTINEL)
+        if o["written"]:
+            if not success:
+                res.violation("output path was written although the run ended unsuccessfully", case, key="written-on-failure:" + key, outcome=out)
+            if baseline is not None and o["file_after"] != baseline:
+                res.violation("an SKR other than the fault-free one was written", case, key="wrong-skr:" + key, outcome=out, bytes_at_output_path=len(o["file_after"]), bytes_of_the_fault_free_skr=len(baseline))
+        else:
+            if success:
+                res.violation("run reported success but nothing was written to the output path", case, key="success-no-write:" + key, outcome=out)
+            if o["file_after"] != pre:
+                res.violation("an existing output file was not left unchanged by an unsuccessful run", case, key="clobbered:" + key, outcome=out)
+        if "exit" in o and ((o["exit"] == 0) != success or (not success and o["exit"] == 0)):
+            res.violation("exit status 0 on an unsuccessful run (or non-zero on success)", case, key="exit:" + key, outcome=out, exit=o["exit"])
+        if expect_no_sign and o["sign_ops"]:
+            res.violation("private-key operation although the failure precedes the signing stage", case, key="early-sign:" + key, outcome=out, sign_ops=o["sign_ops"])
+        if expect_success is True and not success:
+            res.violation("honest ceremony did not succeed", case, key="honest:" + key, outcome=out)
+        if expect_success is False and success:
+            res.violation(refusal, case, key="gate:" + key, outcome=out)
+        if success and o["file_after"] is not None and o["written"]:
+            self.judge_file(o, case, key, sc, ksr_xml)
+        res.bump("outcome:" + ("success" if success else str(next(iter(out.values())))))
+        return success
+
+    def judge_file(self, o: dict[str, Any], case: dict[str, Any], key: str, sc: S.Scenario | None, ksr_xml: str | None) -> None:
+        """Every SKR a successful run leaves behind: the repository's own loader and the independent judge must accept it."""
+        from kskm.common.config_misc import ResponsePolicy
+        from kskm.skr.load import load_skr
+
+        res = self.res
+        n = len(sc.layout) if sc is not None else None
+        p = self.work / "reload.xml"
+        p.write_bytes(o["file_after"])
+        doc = None
+        try:
+            doc = R.skr_document(o["file_after"])
+        except Exception:  # noqa: BLE001  (reported by skr_problems below)
+            pass
+        nb = n if n is not None else (len(doc["bundles"]) if doc else 1)
+        rl = lib.run_impl(lambda: load_skr(p, ResponsePolicy(num_bundles=nb)))
+        if "ok" not in rl:
+            res.violation("the SKR written by a successful run is refused by load_skr (validate_response)", case, key="reload:" + key, outcome=rl)
+        bad = R.skr_problems(o["file_after"], num_bundles=n, roles=R.roles_of(sc) if sc is not None else None, request_xml=ksr_xml if ksr_xml is not None else (C.request_to_xml(sc.request()) if sc is not None else None))
+        if bad:
+            res.violation("the SKR written by a successful run is rejected by the independent validator", case, key="independent:" + key, problems=bad[:6])
+        res.bump("written SKR judged (load_skr + ElementTree/dnspython)")
+
+
+def fault_must_fail(op: str, kind: str) -> bool:
+    return kind in MUST_FAIL_KINDS and op not in SESSION_SETUP_OPS
+
+
+def enumerate_faults(j: Judge, r: Any, work: Path, scen: S.Scenario, ref: dict[str, Any], prev: bytes | None, bl: bytes | None, positions: list[int], case0: dict[str, Any]) -> None:
+    res = j.res
+    other_key = K.rsa_keys(2048, 65537)[3]
+    for pos in positions:
+        op = ref["log"][pos]["op"]
+        kinds = FAULTS_BY_OP.get(op, ["error"])
+        for kind in kinds:
+            f: dict[str, Any] = {"kind": kind}
+            if kind == "wrong_key":
+                f["key"] = other_key
+            if kind == "corrupt":
+                f["pos"] = r.randrange(256)
+                f["bit"] = r.randrange(8)
+            scen.plan = {pos: f}
+            o = R.run_ceremony(scen, work, answer="Yes", prev_xml=None if prev is None else prev.decode())
+            scen.plan = {}
+            case = dict(case0, stream="fault", prev=prev is not None, position=pos, op=op, kind=kind, module=ref["log"][pos].get("module"), slot=ref["log"][pos].get("slot"))
+            must_fail = fault_must_fail(op, kind)
+            ok = j.observe(o, case, bl, sc=scen, expect_success=False if must_fail else None, refusal="run succeeded although a token operation of the ceremony returned an error / a bad signature")
+            res.bump(f"fault:{op}:{kind}")
+            if ok and not must_fail:
+                res.bump(("session-setup-error" if op in SESSION_SETUP_OPS else "fault") + f":{op}:{kind}: run completed with the fault-free SKR (key found elsewhere / slot skipped)")
 
 
 def run(tier: str, driver_ok: bool) -> Result:
     res = Result("C03")
     res.rule = (
         "(a) every token-operation position x every applicable fault kind for 1- and 3-bundle ceremonies (thorough: 9 bundles, two signers), with and "
-        "without previous SKR; (b) gate violations before signing (KSR timing/key/PoP rules, chain rules, schema/HSM/KSR-file errors), 19 confirmation "
-        "strings, forced runs; (c) exit statuses via main(); non-trivial = distinct (ceremony, fault position, kind | gate | answer)"
+        "without previous SKR; (a') the same over redundant token set-ups (KSK label in two modules / two slots with the same or with other key material, "
+        "key in the later module only; thorough: 2x2 slots, two signers crosswise); (b) gate violations before signing (KSR timing/key/PoP rules, chain "
+        "rules, schema/HSM/KSR-file errors), 19 confirmation strings, forced runs; chain gates with the previous SKR named in the configuration / on the "
+        "command line / both; (b') identifier collisions in the request (ZSK identifier = label of a signing / published KSK at the first, middle, last "
+        "bundle; one identifier for two ZSKs across / within bundles) and publish-/retire-safety violations as the only violation x previous-SKR source "
+        "(configuration, command line, both, both reversed); (b'') output path absent / short / 300 kB / earlier SKR / longer earlier SKR x successful, "
+        "declined, faulted, refused-after-signing runs; schema slots listed out of order; (c) exit statuses via main() with file names from the "
+        "configuration and from the command line; every written SKR re-loaded (load_skr) and judged independently (ElementTree + dnspython); "
+        "non-trivial = distinct (ceremony, fault position, kind | gate | answer | output-path content | previous-SKR source)"
     )
     r = lib.rng("C03")
     work = R.scratch_dir("C03")
-    runs: list[dict[str, Any]] = []
+    j = Judge(res, work)
+    runs = j.runs
     try:
         shapes = [(1, 1), (3, 2)] if tier == "quick" else [(1, 1), (3, 2), (9, 2)]
         for n, signers in shapes:
             sc = ceremony_scenario(r, n, signers)
             # ---- baseline (fault-free), first without then with a previous SKR ------------------------
             base = R.run_ceremony(sc, work, answer="Yes")
-            observe(res, runs, base, {"stream": "honest", "n": n, "prev": False}, None, expect_success=True)
+            j.observe(base, {"stream": "honest", "n": n, "prev": False}, None, sc=sc, expect_success=True)
             baseline = base["file_after"] if base["written"] else None
             nx = successor(sc, n)
             base2 = R.run_ceremony(nx, work, answer="Yes", prev_xml=(baseline or b"").decode())
-            observe(res, runs, base2, {"stream": "honest", "n": n, "prev": True}, None, expect_success=True)
+            j.observe(base2, {"stream": "honest", "n": n, "prev": True}, None, sc=nx, expect_success=True)
             baseline2 = base2["file_after"] if base2["written"] else None
             if len(res.samples) < 1:
                 res.sample({"ceremony": S.describe(sc), "token_ops": [x["op"] for x in base["log"]][:40], "outcome": base["outcome"]})
-            other_key = K.rsa_keys(2048, 65537)[3]
             # ---- (a) faults -------------------------------------------------------------------------------
             for label, scen, prev, bl, ref in (("noprev", sc, None, baseline, base), ("prev", nx, baseline, baseline2, base2)):
                 if prev is not None and tier == "quick" and n > 1:
                     positions = [i for i, rec in enumerate(ref["log"]) if rec["op"] in FAULTS_BY_OP][:: 3]
                 else:
                     positions = list(range(len(ref["log"])))
-                for pos in positions:
-                    op = ref["log"][pos]["op"]
-                    kinds = FAULTS_BY_OP.get(op, ["error"])
-                    for kind in kinds:
-                        f: dict[str, Any] = {"kind": kind}
-                        if kind == "wrong_key":
-                            f["key"] = other_key
-                        if kind == "corrupt":
-                            f["pos"] = r.randrange(256)
-                            f["bit"] = r.randrange(8)
-                        scen.plan = {pos: f}
-                        o = R.run_ceremony(scen, work, answer="Yes", prev_xml=None if prev is None else prev.decode())
-                        scen.plan = {}
-                        case = {"stream": "fault", "n": n, "prev": prev is not None, "position": pos, "op": op, "kind": kind}
-                        observe(res, runs, o, case, bl)
-                        res.bump(f"fault:{op}:{kind}")
+                enumerate_faults(j, r, work, scen, ref, prev, bl, positions, {"n": n})
             # ---- (b) confirmation strings ------------------------------------------------------------------
             for ans in CONFIRMATIONS:
                 o = R.run_ceremony(sc, work, answer=ans)
                 want = ans.strip("\n") == "Yes"  # the documented rule: exactly 'Yes' (newlines aside)
-                observe(res, runs, o, {"stream": "confirm", "n": n, "answer": ans}, baseline, expect_no_sign=not want, expect_success=want)
+                j.observe(o, {"stream": "confirm", "n": n, "answer": ans}, baseline, sc=sc, expect_no_sign=not want, expect_success=want)
                 if o["prompt"].calls != 1:
                     res.violation("confirmation prompt not shown exactly once", {"answer": ans}, key="prompt-count", calls=o["prompt"].calls)
             o = R.run_ceremony(sc, work, answer="no", force=True)
-            observe(res, runs, o, {"stream": "confirm", "n": n, "answer": "(forced)"}, baseline, expect_success=True)
+            j.observe(o, {"stream": "confirm", "n": n, "answer": "(forced)"}, baseline, sc=sc, expect_success=True)
             if o["prompt"].calls != 0:
                 res.violation("forced run still prompted", {"forced": True}, key="prompt-forced")
             # ---- (b) gates before signing ---------------------------------------------------------------------
@@ -191,17 +351,35 @@ def run(tier: str, driver_ok: bool) -> Result:
 
             rq = sc.request()
             rq = rq.replace(zsk_policy=rq.zsk_policy.replace(algorithms=set(rq.zsk_policy.algorithms) | {AlgorithmPolicyECDSA(bits=256, algorithm=AlgorithmDNSSEC.ECDSAP256SHA256)}))
-            o = R.run_ceremony(sc, work, answer="Yes", ksr_xml=C.request_to_xml(rq), rp_extra={"approved_algorithms": ["RSASHA256", "ECDSAP256SHA256"]})
-            observe(res, runs, o, {"stream": "gate", "n": n, "gate": "skr-not-serialisable"}, baseline, expect_success=False)
+            unserialisable = {"ksr_xml": C.request_to_xml(rq), "rp_extra": {"approved_algorithms": ["RSASHA256", "ECDSAP256SHA256"]}}
+            o = R.run_ceremony(sc, work, answer="Yes", **unserialisable)
+            j.observe(o, {"stream": "gate", "n": n, "gate": "skr-not-serialisable"}, baseline, sc=sc, expect_success=False)
             if not o["sign_ops"]:
                 res.notes.append("skr-not-serialisable gate did not reach the signing stage (generator problem)")
             for gate, kw in gates:
                 o = R.run_ceremony(sc, work, answer="Yes", **kw)
                 # zero token operations at all for a bad KSR (it is loaded before the HSM is initialised)
                 case = {"stream": "gate", "n": n, "gate": gate}
-                observe(res, runs, o, case, baseline, expect_no_sign=True, expect_success=False)
+                j.observe(o, case, baseline, sc=sc, expect_no_sign=True, expect_success=False)
                 if gate not in ("hsm-unknown",) and o["log"]:
                     res.violation("token operations although the KSR / schema was refused", case, key="gate-token-ops:" + gate, ops=len(o["log"]))
+            # ---- (b'') what lies at the output path ------------------------------------------------------------
+            if baseline is not None:
+                last_sign = max(i for i, rec in enumerate(base["log"]) if rec["op"] == "sign")
+                for tag, pre in R.output_files(earlier_skr=baseline2):
+                    for what, kw, want in (
+                        ("honest", {"answer": "Yes"}, True),
+                        ("declined", {"answer": "no"}, False),
+                        ("fault", {"answer": "Yes", "_plan": {last_sign: {"kind": "truncate"}}}, False),
+                        ("refused-after-signing", dict(unserialisable, answer="Yes"), False),
+                    ):
+                        kw = dict(kw)
+                        sc.plan = kw.pop("_plan", {})
+                        o = R.run_ceremony(sc, work, preexisting=pre, **kw)
+                        sc.plan = {}
+                        case = {"stream": "output-path", "n": n, "gate": f"{what}:{tag}", "bytes_before": None if pre is None else len(pre)}
+                        j.observe(o, case, baseline, sc=sc, expect_success=want, expect_no_sign=(what == "declined"))
+                        res.bump(f"output-path:{tag}:{what}")
             # chain gates (with previous SKR)
             if baseline is not None:
                 prevx = baseline.decode()
@@ -224,20 +402,32 @@ def run(tier: str, driver_ok: bool) -> Result:
                 foreign.token_edits = [lambda w: swap_key(w, "Kka", K.rsa_keys(2048, 65537)[4])]
                 chain.append(("prev-signer-not-ours", foreign, {}))
                 for gate, scen, kw in chain:
-                    o = R.run_ceremony(scen, work, answer="Yes", prev_xml=prevx, **kw)
-                    case = {"stream": "gate", "n": n, "gate": "chain:" + gate}
-                    observe(res, runs, o, case, None, expect_no_sign=True, expect_success=False)
+                    for mode in R.PREV_MODES:
+                        # "both": the configuration names another (valid) SKR — the one of the NEXT quarter; the command line wins
+                        src = {"config": {"prev_xml": prevx}, "cli": {"prev_cli_xml": prevx}, "both": {"prev_cli_xml": prevx, "prev_xml": (baseline2 or baseline).decode()}}[mode]
+                        o = R.run_ceremony(scen, work, answer="Yes", **src, **kw)
+                        case = {"stream": "gate", "n": n, "gate": "chain:" + gate, "previous_skr_named_in": mode}
+                        j.observe(o, case, None, sc=scen, expect_no_sign=True, expect_success=False)
+                        res.bump("previous-skr-source:" + mode)
                 # a forged previous SKR (one signature bit flipped) is refused by load_skr
-                j = prevx.index("<SignatureData>") + 30
-                forged = prevx[:j] + ("A" if prevx[j] != "A" else "B") + prevx[j + 1 :]
-                o = R.run_ceremony(successor(sc, n), work, answer="Yes", prev_xml=forged)
-                observe(res, runs, o, {"stream": "gate", "n": n, "gate": "chain:forged-prev"}, None, expect_no_sign=True, expect_success=False)
-                if o["log"]:
-                    res.violation("token operations although the previous SKR was refused", {"gate": "forged-prev"}, key="gate-token-ops:forged-prev")
+                jx = prevx.index("<SignatureData>") + 30
+                forged = prevx[:jx] + ("A" if prevx[jx] != "A" else "B") + prevx[jx + 1 :]
+                for mode in R.PREV_MODES:
+                    src = {"config": {"prev_xml": forged}, "cli": {"prev_cli_xml": forged}, "both": {"prev_cli_xml": forged, "prev_xml": prevx}}[mode]
+                    o = R.run_ceremony(successor(sc, n), work, answer="Yes", **src)
+                    j.observe(o, {"stream": "gate", "n": n, "gate": "chain:forged-prev", "previous_skr_named_in": mode}, None, expect_no_sign=True, expect_success=False)
+                    if o["log"]:
+                        res.violation("token operations although the previous SKR was refused", {"gate": "forged-prev", "previous_skr_named_in": mode}, key="gate-token-ops:forged-prev")
+                # the honest successor, previous SKR named on the command line only / in both places (configuration: the forged file)
+                for mode, src in (("cli", {"prev_cli_xml": prevx}), ("both", {"prev_cli_xml": prevx, "prev_xml": forged})):
+                    o = R.run_ceremony(nx, work, answer="Yes", **src)
+                    j.observe(o, {"stream": "honest", "n": n, "prev": True, "previous_skr_named_in": mode}, baseline2, sc=nx, expect_success=True)
             # ---- (c) exit statuses via main() ----------------------------------------------------------------
             for tag, kw, want in [
                 ("success", {"answer": "Yes"}, 0),
+                ("success-files-on-command-line", {"answer": "Yes", "files_via": "cli"}, 0),
                 ("declined", {"answer": "no"}, 3),
+                ("declined-files-on-command-line", {"answer": "no", "files_via": "cli"}, 3),
                 ("schema-unknown", {"answer": "Yes", "schema_arg": "nosuch"}, 3),
                 ("config-error", {"answer": "Yes", "cfg_mutator": lambda d: dict(d, request_policy=dict(d["request_policy"], num_bundles=0))}, 2),
                 ("bad-ksr", {"answer": "Yes", "rp_extra": {"num_bundles": n + 1}}, "nonzero"),
@@ -249,10 +439,25 @@ def run(tier: str, driver_ok: bool) -> Result:
                 o = R.run_ceremony(sc, work, use_main=True, **kw)
                 sc.plan = {}
                 case = {"stream": "main", "n": n, "gate": tag}
-                observe(res, runs, o, case, baseline)
+                j.observe(o, case, baseline, sc=sc)
                 ok = (o["exit"] == want) if isinstance(want, int) else (o["exit"] != 0)
                 if not ok:
                     res.violation("exit status differs from the documented mapping", case, key="exit-map:" + tag, exit=o["exit"], want=want, outcome=o["outcome"])
+            if baseline is not None and baseline2 is not None:
+                # main() with a previous SKR: on the command line, in the configuration, both; honest and gapped
+                gapm = successor(sc, n)
+                gapm.start = gapm.start + timedelta(days=13)
+                for mode in R.PREV_MODES:
+                    src = {"config": {"prev_xml": baseline.decode()}, "cli": {"prev_cli_xml": baseline.decode()}, "both": {"prev_cli_xml": baseline.decode(), "prev_xml": baseline2.decode()}}[mode]
+                    o = R.run_ceremony(nx, work, use_main=True, answer="Yes", **src)
+                    case = {"stream": "main", "n": n, "gate": "success-with-previous-skr", "previous_skr_named_in": mode}
+                    j.observe(o, case, baseline2, sc=nx, expect_success=True)
+                    o = R.run_ceremony(gapm, work, use_main=True, answer="Yes", **src)
+                    j.observe(o, {"stream": "main", "n": n, "gate": "chain:gap", "previous_skr_named_in": mode}, None, sc=gapm, expect_success=False, expect_no_sign=True)
+        redundant_stream(j, r, work, tier)
+        collision_stream(j, r, work, tier)
+        safety_stream(j, r, work, tier)
+        listing_stream(j, r, work, tier)
         # ---- model ---------------------------------------------------------------------------------------------
         if driver_ok:
             with_line = [x for x in runs if "line" in x]
@@ -262,6 +467,10 @@ def run(tier: str, driver_ok: bool) -> Result:
                     res.disagreement("ksrsigner: driver error", x["case"], x["outcome"], m)
                     continue
                 if lib.is_unsupported(m["result"]):
+                    if x.get("model_may_decline"):
+                        # two keys under one identifier in a key set: KeysToSign.get depends on set iteration order (Kskm.ktsGet declines)
+                        res.unsupported += 1
+                        continue
                     # nothing here is outside the modelled domain: the model left the recorded run (replay / oracle miss)
                     res.disagreement("ksrsigner: the model could not follow the implementation's run (it expects other token operations / oracle questions)", x["case"], x["outcome"], m["result"], log_difference=C.first_log_difference(x["log"], m["log"]))
                     continue
@@ -279,11 +488,161 @@ def run(tier: str, driver_ok: bool) -> Result:
                     res.disagreement("ksrsigner: model and implementation disagree on whether an SKR is written", x["case"], impl, m["result"])
                 elif writes and S.response_sorted_j(writes[0]) != R.canon_written(x["file_after"]):
                     res.disagreement("ksrsigner: model writes a different SKR", x["case"], impl, m["result"])
+                elif writes:
+                    # the WHOLE file as an independent XML parser reads it, bundles in document order (not a prefix of the file)
+                    try:
+                        whole = S.response_sorted_j(R.skr_document(x["file_after"]))
+                    except Exception as exc:  # noqa: BLE001
+                        whole = {"unreadable": f"{type(exc).__name__}: {exc}"[:200]}
+                    if S.response_sorted_j(writes[0]) != whole:
+                        res.disagreement("ksrsigner: the file at the output path is not (exactly) the SKR the model writes", x["case"], impl, m["result"], file=whole if "unreadable" in whole else "differs")
                 if ("prompt" in m["events"]) != (x["prompt"].calls > 0):
                     res.disagreement("ksrsigner: model and implementation disagree on prompting", x["case"], impl, m["result"])
     finally:
         R.cleanup(work)
     return res
+
+
+def redundant_stream(j: Judge, r: Any, work: Path, tier: str) -> None:
+    """(a') fault enumeration over token set-ups in which a KSK label is found in more than one module / slot."""
+    res = j.res
+    kinds = REDUNDANT_QUICK if tier == "quick" else REDUNDANT_THOROUGH
+    for kind in kinds:
+        n = 2 if tier == "quick" else 3
+        sc = redundant_scenario(kind, n)
+        case0 = {"n": n, "tokens": kind}
+        base = R.run_ceremony(sc, work, answer="Yes")
+        j.observe(base, dict(case0, stream="honest", prev=False), None, sc=sc, expect_success=True)
+        if not base["written"]:
+            continue
+        baseline = base["file_after"]
+        nx = successor(sc, n)
+        base2 = R.run_ceremony(nx, work, answer="Yes", prev_xml=baseline.decode())
+        j.observe(base2, dict(case0, stream="honest", prev=True), None, sc=nx, expect_success=True)
+        res.bump("redundant-tokens:" + kind)
+        if len(res.samples) < 3:
+            res.sample({"redundant_token_setup": kind, "modules": sc.modules, "token_ops": [f"{x['op']}@{x.get('module')}/{x.get('slot', '')}" for x in base["log"]][:48]})
+        enumerate_faults(j, r, work, sc, base, None, baseline, list(range(len(base["log"]))), case0)
+        if base2["written"]:
+            # with a previous SKR (its signers are looked up on the token as well): every position in thorough, every other
+            # search / read / signing position in quick
+            positions = list(range(len(base2["log"])))
+            if tier == "quick":
+                positions = [i for i in positions if base2["log"][i]["op"] in FAULTS_BY_OP][::2]
+            enumerate_faults(j, r, work, nx, base2, baseline, base2["file_after"], positions, case0)
+
+
+def collision_stream(j: Judge, r: Any, work: Path, tier: str) -> None:
+    """(b') identifier collisions in the request: only the re-validation of the RESPONSE bundle sees them (the software check of
+    each token signature compares octets with the token's public key and is content)."""
+    res = j.res
+    n = 3
+    z = K.rsa_keys(1024, 65537)
+    schema = lambda slot: {"publish": ["ka", "kb"], "sign": ["ka"], "revoke": []}  # noqa: E731  (ka signs, kb is published only)
+    where = {"first": 0, "middle": 1, "last": 2}
+    for label, role in (("Kka", "signing-ksk"), ("Kkb", "published-ksk")):
+        for pos_name, p in where.items():
+            layout = [[0, 1], [1], [1]]
+            layout[p] = layout[p] + [2]
+            sc = two_ksk_scenario(n, schema, layout=layout, zsks=[("Z0", z[0], 8), ("Z1", z[1], 8), (label, z[2], 8)])
+            o = R.run_ceremony(sc, work, answer="Yes")
+            case = {"stream": "gate", "n": n, "gate": f"collision:zsk-identifier-is-label-of-{role}:{pos_name}-bundle"}
+            # two different keys under one identifier in the response bundle: no relying party can attribute the signature
+            j.observe(o, case, None, sc=sc, expect_success=False, model_may_decline=True)
+            res.bump(f"collision:{role}:{pos_name}")
+    # the colliding name belongs to a KSK the schema does not use at all: nothing collides, the ceremony is an ordinary one
+    sc = two_ksk_scenario(n, lambda slot: {"publish": ["ka"], "sign": ["ka"], "revoke": []}, layout=[[0, 1, 2], [1], [1]], zsks=[("Z0", z[0], 8), ("Z1", z[1], 8), ("Kkb", z[2], 8)])
+    o = R.run_ceremony(sc, work, answer="Yes")
+    j.observe(o, {"stream": "gate", "n": n, "gate": "collision:zsk-identifier-is-label-of-unused-ksk"}, None, sc=sc, expect_success=True)
+    # one identifier, two different ZSKs: in different bundles (each bundle on its own is unambiguous) …
+    for pos_name, p in (("middle", 1), ("last", 2)):
+        layout = [[0, 1], [1], [1]]
+        layout[p] = layout[p] + [2]
+        sc = two_ksk_scenario(n, schema, layout=layout, zsks=[("Z0", z[0], 8), ("Z1", z[1], 8), ("Z0", z[2], 8)])
+        o = R.run_ceremony(sc, work, answer="Yes")
+        j.observe(o, {"stream": "gate", "n": n, "gate": f"collision:one-identifier-two-zsks-across-bundles:{pos_name}"}, None, sc=sc, model_may_decline=True)
+        res.bump("collision:across-bundles:" + ("accepted" if o["written"] else "refused"))
+    # … and in ONE bundle: the request itself is ambiguous and must be refused before anything is signed
+    for pos_name, p in where.items():
+        layout = [[0, 1], [1], [1]]
+        layout[p] = sorted(set(layout[p] + [1, 2]))
+        sc = two_ksk_scenario(n, schema, layout=layout, zsks=[("Z0", z[0], 8), ("Z1", z[1], 8), ("Z1", z[2], 8)])
+        o = R.run_ceremony(sc, work, answer="Yes")
+        j.observe(o, {"stream": "gate", "n": n, "gate": f"collision:one-identifier-two-zsks-in-one-bundle:{pos_name}"}, None, sc=sc, expect_success=False, expect_no_sign=True, model_may_decline=True)
+        res.bump("collision:within-bundle:" + pos_name)
+
+
+def safety_stream(j: Judge, r: Any, work: Path, tier: str) -> None:
+    """(b') a publish- / retire-safety violation as the ONLY violation x where the previous SKR's name comes from.  The checks
+    sit AFTER the signing stage: signing operations are expected, an SKR is not."""
+    res = j.res
+    n = 2
+    only_a = lambda slot: {"publish": ["ka"], "sign": ["ka"], "revoke": []}  # noqa: E731
+    a_signs_b_published = lambda slot: {"publish": ["ka", "kb"], "sign": ["ka"], "revoke": []}  # noqa: E731
+    both_sign = lambda slot: {"publish": ["ka", "kb"], "sign": ["ka", "kb"], "revoke": []}  # noqa: E731
+    only_b = lambda slot: {"publish": ["kb"], "sign": ["kb"], "revoke": []}  # noqa: E731
+    prevs: dict[str, bytes] = {}
+    for name, schema in (("only-a", only_a), ("a-signs-b-published", a_signs_b_published), ("only-b", only_b)):
+        sc = two_ksk_scenario(n, schema)
+        o = R.run_ceremony(sc, work, answer="Yes")
+        j.observe(o, {"stream": "honest", "n": n, "schema": name, "prev": False}, None, sc=sc, expect_success=True)
+        if not o["written"]:
+            return
+        prevs[name] = o["file_after"]
+    # (gate, schema of the new ceremony, previous SKR under which it is violated, previous SKR under which nothing is violated, extra)
+    gates = [
+        ("publish-safety:signer-not-pre-published", both_sign, "only-a", "a-signs-b-published", {}),
+        ("retire-safety:previous-signer-dropped", only_b, "a-signs-b-published", "only-b", {}),
+        ("publish-safety:publish-point-before-previous-last-bundle", only_a, "only-a", None, {"ksk_policy_extra": {"publish_safety": "P10DT1S"}}),
+        ("publish-safety:publish-point-on-the-bound", only_a, None, "only-a", {"ksk_policy_extra": {"publish_safety": "P10D"}}),
+    ]
+    for gate, schema, bad_prev, good_prev, kw in gates:
+        sc = successor(two_ksk_scenario(n, schema), n)
+        sc.schema = {s: schema(s) for s in range(1, n + 1)}
+        runs: list[tuple[str, dict[str, Any], bool]] = []
+        if bad_prev is not None:
+            b = prevs[bad_prev].decode()
+            other = prevs[good_prev].decode() if good_prev else prevs["only-b"].decode()
+            runs += [("config", {"prev_xml": b}, False), ("cli", {"prev_cli_xml": b}, False), ("both", {"prev_cli_xml": b, "prev_xml": other}, False)]
+        if good_prev is not None:
+            g = prevs[good_prev].decode()
+            other = prevs[bad_prev].decode() if bad_prev else prevs["only-b"].decode()
+            runs += [("config", {"prev_xml": g}, True), ("cli", {"prev_cli_xml": g}, True), ("both", {"prev_cli_xml": g, "prev_xml": other}, True)]
+        for mode, src, want in runs:
+            for use_main in (False, True) if mode != "cli" or tier != "quick" else (False,):
+                o = R.run_ceremony(sc, work, answer="Yes", use_main=use_main, **src, **kw)
+                case = {"stream": "main" if use_main else "gate", "n": n, "gate": gate + ("" if not want else ":not-violated"), "previous_skr_named_in": mode}
+                j.observe(o, case, None, sc=sc, expect_success=want)
+                if not want and not o["sign_ops"]:
+                    res.notes.append(f"{gate}: the run stopped before the signing stage (another rule fired first — generator problem)")
+                res.bump(f"safety-only:{gate.split(':')[0]}:{mode}:" + ("must-pass" if want else "must-refuse"))
+                res.bump("previous-skr-source:" + mode)
+
+
+def listing_stream(j: Judge, r: Any, work: Path, tier: str) -> None:
+    """(b'') the schema's slots are listed out of order in the configuration and differ from each other (kb is revoked in slot 2
+    only): bundle i follows the slot NUMBERED i."""
+    res = j.res
+    n = 3
+
+    def schema(slot: int) -> dict[str, list[str]]:
+        if slot == 1:
+            return {"publish": ["ka", "kb"], "sign": ["ka"], "revoke": []}
+        if slot == 2:
+            return {"publish": ["ka"], "sign": ["ka", "kb"], "revoke": ["kb"]}
+        return {"publish": ["ka"], "sign": ["ka"], "revoke": []}
+
+    ref = None
+    for listing in ([1, 2, 3], [3, 1, 2], [2, 3, 1], [3, 2, 1]):
+        for use_main in (False, True):
+            sc = two_ksk_scenario(n, schema)
+            sc.schema_listing = list(listing)
+            o = R.run_ceremony(sc, work, answer="Yes", use_main=use_main)
+            case = {"stream": "listing", "n": n, "gate": "slots-listed-" + "-".join(map(str, listing)), "main": use_main}
+            j.observe(o, case, ref, sc=sc, expect_success=True)
+            if ref is None and o["written"]:
+                ref = o["file_after"]  # the order of listing must not show in the SKR at all
+            res.bump("schema-listing:" + ("ascending" if listing == sorted(listing) else "out-of-order"))
 
 
 def swap_key(world: Any, label: str, tk: K.TestKey) -> None:
@@ -296,4 +655,4 @@ def swap_key(world: Any, label: str, tk: K.TestKey) -> None:
 
 
 def replay(obj: dict[str, Any]) -> Any:
-    return {"recorded": obj, "note": "cases are (ceremony shape, fault position/kind | gate | answer); re-run ./check C03 with the same VERIF_SEED"}
+    return {"recorded": obj, "note": "cases are (ceremony shape / token set-up, fault position/kind | gate | answer | output-path content | previous-SKR source); re-run ./check C03 with the same VERIF_SEED"}
